@@ -1,5 +1,5 @@
 // Package pc36 holds the check of property C36 (shutdown closes every connection and waits for all handlers).
-// A real broker (mqtt.New + allow-all auth + listeners.TCP on 127.0.0.1:0 + Serve) is started for every case;
+// A real broker (mqtt.New + allow-all auth + listeners.TCP on its own 127.x.y.z:0 + Serve) is started for every case;
 // 4-40 real loopback TCP clients are driven to generated stages; Server.Close() runs at a generated point. The verif
 // schedule points attach.start / attach.end count the connection handlers that are alive, and directed classes use
 // them (and an ordinary mqtt.Hook) to place Close() at the places the free-running schedule reaches only by luck.
@@ -787,14 +787,43 @@ func writeDump(what string) string {
 	return p
 }
 
-// ownListenerOnPort reports whether THIS process still holds a listening TCP socket on 127.0.0.1:port (a successful
-// dial alone could have reached another process that was given the same ephemeral port in the meantime).
-func ownListenerOnPort(port int) (ours, decided bool) {
-	b, err := os.ReadFile("/proc/self/net/tcp")
+// procHexAddr renders "a.b.c.d:port" the way /proc/net/tcp does (IPv4, little-endian address).
+func procHexAddr(hostport string) string {
+	h, p, err := net.SplitHostPort(hostport)
 	if err != nil {
+		return ""
+	}
+	ip := net.ParseIP(h).To4()
+	port, _ := strconv.Atoi(p)
+	if ip == nil {
+		return ""
+	}
+	return fmt.Sprintf("%02X%02X%02X%02X:%04X", ip[3], ip[2], ip[1], ip[0], port)
+}
+
+// ownInodes returns the socket inodes this process holds a descriptor for.
+func ownInodes() (map[string]bool, bool) {
+	es, err := os.ReadDir("/proc/self/fd")
+	if err != nil {
+		return nil, false
+	}
+	out := map[string]bool{}
+	for _, e := range es {
+		if l, err := os.Readlink("/proc/self/fd/" + e.Name()); err == nil && strings.HasPrefix(l, "socket:[") {
+			out[strings.TrimSuffix(strings.TrimPrefix(l, "socket:["), "]")] = true
+		}
+	}
+	return out, true
+}
+
+// ownListenerOn reports whether THIS process still holds a listening TCP socket on addr (a successful dial alone could
+// have reached another process that was given the same ephemeral port in the meantime).
+func ownListenerOn(addr string) (ours, decided bool) {
+	b, err := os.ReadFile("/proc/self/net/tcp")
+	want := procHexAddr(addr)
+	if err != nil || want == "" {
 		return false, false
 	}
-	want := fmt.Sprintf("0100007F:%04X", port)
 	inodes := map[string]bool{}
 	for _, ln := range strings.Split(string(b), "\n")[1:] {
 		f := strings.Fields(ln)
@@ -805,18 +834,39 @@ func ownListenerOnPort(port int) (ours, decided bool) {
 	if len(inodes) == 0 {
 		return false, true
 	}
-	es, err := os.ReadDir("/proc/self/fd")
-	if err != nil {
+	own, ok := ownInodes()
+	if !ok {
 		return false, false
 	}
-	for _, e := range es {
-		if l, err := os.Readlink("/proc/self/fd/" + e.Name()); err == nil && strings.HasPrefix(l, "socket:[") {
-			if inodes[strings.TrimSuffix(strings.TrimPrefix(l, "socket:["), "]")] {
-				return true, true
-			}
+	for i := range inodes {
+		if own[i] {
+			return true, true
 		}
 	}
 	return false, true
+}
+
+// serverSideSocket looks for the broker's end of a client connection: a TCP socket with local address serverAddr and
+// peer clientLocal. held is true only if such a socket exists AND this process holds a descriptor for it, i.e. the
+// listener's Accept returned it to the broker and nobody closed it. A connection that completed on the client side but
+// was never taken from the listener's queue (or was taken by another process that reused the port) has no such socket.
+func serverSideSocket(serverAddr, clientLocal string) (state string, held, decided bool) {
+	b, err := os.ReadFile("/proc/self/net/tcp")
+	l, rem := procHexAddr(serverAddr), procHexAddr(clientLocal)
+	if err != nil || l == "" || rem == "" {
+		return "", false, false
+	}
+	own, ok := ownInodes()
+	if !ok {
+		return "", false, false
+	}
+	for _, ln := range strings.Split(string(b), "\n")[1:] {
+		f := strings.Fields(ln)
+		if len(f) > 9 && f[1] == l && f[2] == rem {
+			return f[3], f[9] != "0" && own[f[9]], true
+		}
+	}
+	return "absent", false, true
 }
 
 // kernelState asks the kernel, without consuming anything and without waiting, what a read on the client socket would
@@ -896,7 +946,8 @@ func c36Check(c c36Case, r *evid.Rec) (discs []evid.Disc) {
 	oldGC := debug.SetGCPercent(-1)
 	defer debug.SetGCPercent(oldGC)
 
-	lid := fmt.Sprintf("c36-%d", c36Seq.Add(1))
+	seq := c36Seq.Add(1)
+	lid := fmt.Sprintf("c36-%d-%d", os.Getpid(), seq)
 	run := &c36Run{c: c, lid: lid, stop: make(chan struct{})}
 	hasParks := false
 	for _, s := range c.Clients {
@@ -929,11 +980,23 @@ func c36Check(c c36Case, r *evid.Rec) (discs []evid.Disc) {
 		}
 		_ = run.srv.AddHook(window, nil)
 	}
-	l := listeners.NewTCP(listeners.Config{ID: lid, Address: "127.0.0.1:0"})
+	// Every case listens on its own address of 127.0.0.0/8 (derived from the process id and the case number): other
+	// processes on this machine open and close listeners on 127.0.0.1 all the time, and a port that Close() has just
+	// released is handed out again at once - a late dial of ours would then reach a foreign broker (and a foreign late
+	// dial ours).
+	pid := os.Getpid()
+	laddr := fmt.Sprintf("127.%d.%d.%d:0", 1+pid%254, (pid/254+int(seq)/254)%256, 1+int(seq)%254)
+	if v := os.Getenv("VERIF_C36_LISTEN"); v != "" { // e.g. 127.0.0.1:0, to exercise the shared-address situation on purpose
+		laddr = v
+	}
+	l := listeners.NewTCP(listeners.Config{ID: lid, Address: laddr})
 	if err := run.srv.AddListener(l); err != nil {
-		r.Inconclusive("cannot listen on 127.0.0.1:0: " + err.Error())
-		r.NotAsserted()
-		return nil
+		l = listeners.NewTCP(listeners.Config{ID: lid, Address: "127.0.0.1:0"})
+		if err := run.srv.AddListener(l); err != nil {
+			r.Inconclusive("cannot listen on " + laddr + " nor on 127.0.0.1:0: " + err.Error())
+			r.NotAsserted()
+			return nil
+		}
 	}
 	run.addr = l.Address()
 	if _, p, err := net.SplitHostPort(run.addr); err == nil {
@@ -1159,7 +1222,7 @@ func c36Check(c c36Case, r *evid.Rec) (discs []evid.Disc) {
 	// ---- Close() has returned
 	if pc, err := net.DialTimeout("tcp", run.addr, 2*time.Second); err == nil {
 		run.tr.register(pc.LocalAddr().String(), nil)
-		ours, decided := ownListenerOnPort(run.port)
+		ours, decided := ownListenerOn(run.addr)
 		_ = pc.Close()
 		if decided && ours {
 			discs = append(discs, evid.D(sigStillListening, "a new dial to %s succeeded after Close() returned and this process still holds the listening socket", run.addr))
@@ -1301,7 +1364,33 @@ func c36Check(c c36Case, r *evid.Rec) (discs []evid.Disc) {
 			case exists && !hEnded:
 				discs = append(discs, evid.D(sigOpenServed, "client %d (%s v%d) is still open %v after Close() returned and its handler is alive (last schedule point %s)", cl.idx, cl.spec.Stage, cl.spec.Ver, c36Grace, last))
 			case !exists:
-				discs = append(discs, evid.D(sigOpenUnserved, "client %d (%s v%d, dialled successfully, %s) is still open %v after Close() returned and no handler ever ran for it: the listener accepted the connection and neither served nor closed it", cl.idx, cl.spec.Stage, cl.spec.Ver, local, c36Grace))
+				// No handler ever ran. Whether the broker ever HAD this connection is not known yet: connect() also completes
+				// for a connection that was still in the listening socket's queue when that socket was closed (its peer
+				// then exists nowhere; the client notices only when it sends), or that another process accepted after the
+				// port was handed out again. It is the broker's doing only if this process holds the other end.
+				st, held, decided := serverSideSocket(run.addr, local)
+				probe := "not probed"
+				if decided && held {
+					_, werr := cl.conn.Write([]byte{0xC0})
+					select {
+					case <-cl.endedCh:
+						probe = "ended after one byte was written"
+					case <-time.After(400 * time.Millisecond):
+						probe = "write error: " + fmt.Sprint(werr)
+						if werr == nil {
+							probe = "still open and silent after one byte was written"
+						}
+					}
+					if werr == nil && kernelState(cl.conn) == "open" {
+						if st2, held2, decided2 := serverSideSocket(run.addr, local); decided2 && held2 {
+							discs = append(discs, evid.D(sigOpenUnserved, "client %d (%s v%d, %s) is still open after Close() returned (waited %v, or until the broker was provably quiescent) and no handler ever ran for it, although the listener accepted the connection: this process holds the broker's end of it (socket %s -> %s, state %s), a byte written by the client was taken without RST/FIN: accepted, neither served nor closed",
+								cl.idx, cl.spec.Stage, cl.spec.Ver, local, c36Grace, run.addr, local, st2))
+							break
+						}
+					}
+				}
+				r.Label("open-conn-never-handed-to-this-broker-not-asserted")
+				ctx = append(ctx, fmt.Sprintf("    client %d: no handler, connection open; broker-side socket: state %q held-by-this-process=%v decided=%v; probe: %s", cl.idx, st, held, decided, probe))
 			default:
 				// the handler has finished (its deferred Stop closed the descriptor) but our reader has not seen the end yet:
 				// a delay on the harness side, not a verdict
@@ -1600,7 +1689,7 @@ func c36Witnesses() map[string]c36Case {
 }
 
 func TestC36(t *testing.T) {
-	r := evid.New("C36", "one real broker per case (mqtt.New, allow-all auth, listeners.TCP on 127.0.0.1:0, Serve) with 4-40 loopback TCP clients driven to generated stages "+
+	r := evid.New("C36", "one real broker per case (mqtt.New, allow-all auth, listeners.TCP on a loopback address of its own, Serve) with 4-40 loopback TCP clients driven to generated stages "+
 		"(dialled only, CONNECT half sent, established v3.1.1/v5, subscribed, PUBLISH half sent, publishing back to back, already gone) and Server.Close() called after a generated number of them "+
 		"reached their stage, so the rest are dialling / connecting while Close() runs; directed classes hold a handler at the verif points attach.start (before ClientsWg.Add) or "+
 		"attach.afterLimitCheck (before Clients.Add) while Close() runs, dial from inside closeListenerClients, or write the client registry (Clients.Add/Delete) at a high rate while Close() reads it. Oracle once Close() has returned: every client socket reads EOF/reset within 2 s "+
